@@ -251,7 +251,15 @@ def _bounded_real_solvers(tier, seed):
 
 
 def build_cases(tier="quick"):
-    return from_result_cases() + validity_cases() + parse_model_cases() + value_cases() + classification_cases()
+    # a counterexample is only reproducible if the run that produced the path used no fact of a sibling path:
+    # ownership of the concretisation tables at Path.branch (C02)
+    from contracts import c02
+
+    from contracts import c11
+
+    refq = [Case(f"{PROP}/solve.dump#refined-query-keeps-its-constraints", c.case, c.harness, replay=c.replay, sources=c.sources) for c in c11.dump_cases()]
+    ref = refq + [Case(f"{PROP}/sevm.Path.branch#concretization-ownership", c.case, c.harness, replay=c.replay, sources=c.sources) for c in c02.path_cases() if "Path.branch" in c.unit]
+    return from_result_cases() + validity_cases() + parse_model_cases() + value_cases() + classification_cases() + ref
 
 
 def bounded():
